@@ -23,6 +23,10 @@ ASSUMPTIONS = [
     "A4 the standard library behaves as documented (asyncio.Queue FIFO, wait_for cancels and "
     "awaits the inner task, call_later returns a cancellable handle)",
     "A5 the environment cancels a given API task at most once",
+    "A6 calls of the block logging helpers / a module logger neither raise nor affect the circuit",
+    "E12 the rules run on the analysed program after behaviour-preserving normalisation towards the "
+    "pinned tree's spelling (alpha-conversion of locals, inlining of new private helpers and new "
+    "pure locals, control-flow re-spellings; each step an equivalence, see DESIGN.md section 13)",
     "the analysed text is /repo's working tree at run time; nothing from /repo is imported or "
     "executed",
 ]
@@ -283,6 +287,9 @@ class Check:
                 'known_findings_matched': [f"{e['rule']} {e['construct']}" for e in known_hits],
                 'analysis_errors': [f"{r}: {why}" for r, why in self.analysis_errors],
                 'notes': self.notes,
+                'normalisation_steps': [' / '.join(str(x) for x in t) for t in
+                                        getattr(self._prog, 'alpha_log', [])][:60]
+                if getattr(self, '_prog', None) is not None else [],
                 'exhaustive': False,
                 'exit_code': code,
                 **self.extra,
